@@ -9,6 +9,7 @@ MC_WORLD = {
     "quick": [("MCWorld1q.cfg", "1 world, 2 components, <=3 value creations, batches 0..2"),
               ("MCWorld2q.cfg", "2 worlds (clone / clone_from / serde between them), 2 components, <=1 value creation, batches 0..1")],
     "thorough": [("MCWorld1.cfg", "1 world, 2 components, <=4 value creations, batches 0..2"),
+                 ("MCWorld3c.cfg", "1 world, 3 components, <=3 value creations, batches 0..2"),
                  ("MCWorld2.cfg", "2 worlds (clone / clone_from / serde between them), 2 components, <=2 value creations, batches 0..2")],
 }
 MC_PAR = [("ParSplit.cfg", "split algebra of the zipped column producers (slice_mut, RepeatNone, slice) over 5 rows, every split tree"),
